@@ -345,6 +345,9 @@ impl Check for C17 {
                     let r2 = range.clone();
                     t.run("PortRange::validate", format!("{s} count={count}"), move || r2.validate(count).is_ok());
                 }
+                // the consumer of an accepted port option: compare every port of it with the recorded ones
+                let r4 = range.clone();
+                t.run("check_port_availability", s.clone(), move || ant_node_manager::helpers::check_port_availability(&r4, &[]).is_ok());
                 let r3 = range.clone();
                 let start = t.run("get_start_port_if_applicable", s.clone(), move || get_start_port_if_applicable(Some(r3)));
                 // what add_node does: walk the range by repeated increments
@@ -466,9 +469,16 @@ impl Check for C17 {
                         let p = libp2p::PeerId::random();
                         let addrs: Vec<Value> = (0..t.cx.rng.gen_range(1..4))
                             .map(|i| {
+                                // mostly well-formed files with extreme but representable numbers (so that they load and
+                                // reach clean-up and merging), some with unrepresentable ones
+                                let now_s = std::time::SystemTime::now().duration_since(std::time::UNIX_EPOCH).map(|d| d.as_secs()).unwrap_or(0);
+                                let count = |t: &mut T| -> u64 { if t.cx.rng.gen_bool(0.06) { nums[t.cx.rng.gen_range(0..4)] } else { *[0u64, 1, 3, 10, u32::MAX as u64 - 3, u32::MAX as u64 - 1, u32::MAX as u64].choose(&mut t.cx.rng).expect("nonempty") } };
+                                let secs = if t.cx.rng.gen_bool(0.15) { nums[t.cx.rng.gen_range(0..10)] } else { *[now_s - 100, now_s, now_s + 1000, u32::MAX as u64].choose(&mut t.cx.rng).expect("nonempty") };
+                                let nanos = if t.cx.rng.gen_bool(0.06) { nums[t.cx.rng.gen_range(0..4)] } else { *[0u64, 1, 999_999_999].choose(&mut t.cx.rng).expect("nonempty") };
+                                let (sc, fc) = (count(&mut t), count(&mut t));
                                 json!({"addr": format!("/ip4/10.0.0.{}/udp/1200/quic-v1/p2p/{p}", i + 1),
-                                    "success_count": nums[t.cx.rng.gen_range(0..4)], "failure_count": nums[t.cx.rng.gen_range(0..4)],
-                                    "last_seen": {"secs_since_epoch": nums[t.cx.rng.gen_range(0..10)], "nanos_since_epoch": nums[t.cx.rng.gen_range(0..4)]}})
+                                    "success_count": sc, "failure_count": fc,
+                                    "last_seen": {"secs_since_epoch": secs, "nanos_since_epoch": nanos}})
                             })
                             .collect();
                         (p.to_string(), Value::Array(addrs))
@@ -481,6 +491,25 @@ impl Check for C17 {
                 }
                 std::fs::write(&path, &txt).expect("write cache file");
                 t.run("BootstrapCacheStore::load_cache_data", txt.chars().take(600).collect(), || ant_bootstrap::BootstrapCacheStore::load_cache_data(&cfg).is_ok());
+                // ... and the same file read back and merged into a running store that knows one of its addresses
+                // (with another last-seen time and a few more successes)
+                if let Some((pid, _)) = doc["peers"].as_object().and_then(|o| o.iter().next()) {
+                    let addr: Option<libp2p::Multiaddr> = format!("/ip4/10.0.0.1/udp/1200/quic-v1/p2p/{pid}").parse().ok();
+                    if let (Some(addr), Ok(mut store)) = (addr, ant_bootstrap::BootstrapCacheStore::new(cfg.clone())) {
+                        store.add_addr(addr.clone());
+                        for _ in 0..3 {
+                            store.update_addr_status(&addr, true);
+                        }
+                        let cfg2 = cfg.clone();
+                        t.run("BootstrapCacheStore::sync_and_flush_to_disk", txt.chars().take(600).collect(), move || {
+                            let r = store.sync_and_flush_to_disk(true).is_ok();
+                            let _ = ant_bootstrap::BootstrapCacheStore::load_cache_data(&cfg2);
+                            r
+                        });
+                        // the flush rewrote the file: put the hostile one back for the next round
+                        let _ = std::fs::write(&path, &txt);
+                    }
+                }
             }
             let _ = std::fs::remove_dir_all(&dir);
         }
